@@ -10,5 +10,5 @@ if diff -q /repo/src/$FILE $S/src/$FILE >/dev/null; then echo "MUTATION DID NOT 
 diff /repo/src/$FILE $S/src/$FILE | head -6
 cd /verif
 set +e
-PYVC_REPO=$S PYTHONPATH=$S/src .venv/bin/python -m pyvc.runner $PID 2>&1 | grep -E "VIOLATION|UNDECIDED|CHECKER|^$PID:" | cut -c1-260
+PYVC_OUT=$S/.pyvc_out PYVC_REPO=$S PYTHONPATH=$S/src .venv/bin/python -m pyvc.runner $PID 2>&1 | grep -E "VIOLATION|UNDECIDED|CHECKER|^$PID:" | cut -c1-260
 exit 0
